@@ -362,6 +362,11 @@ func (v *Verifier) detObligations(prop string) ([]detResult, []string) {
 							if !v.mapRangeCovered(f) {
 								mapHits = append(mapHits, "range over map in "+f.Name()+" without an order-independence loop contract")
 							}
+							// the loop contract speaks about the modelled state only; events are part of the transaction result
+							// (C01) and are not modelled, so a body that emits one makes the result depend on the map order
+							for _, h := range v.eventsInMapLoop(f, x) {
+								mapHits = append(mapHits, h)
+							}
 						}
 					case *ssa.Call:
 						n := calleeNameStatic(&x.Call)
@@ -410,6 +415,93 @@ func shortFnName(s string) string {
 
 // mapRangeCovered: the function is under contract and carries a loop clause tagged C01 (order-independence proved by SMT
 // under the arbitrary-order semantics of map iteration).
+// eventsInMapLoop: event emissions reachable from the body of the loop that ranges over map iterator rng.
+func (v *Verifier) eventsInMapLoop(f *ssa.Function, rng *ssa.Range) []string {
+	// header: the block holding the Next on this iterator
+	var header *ssa.BasicBlock
+	if refs := rng.Referrers(); refs != nil {
+		for _, u := range *refs {
+			if n, ok := u.(*ssa.Next); ok {
+				header = n.Block()
+			}
+		}
+	}
+	if header == nil {
+		return nil
+	}
+	// natural loop: blocks dominated by the header that can reach it
+	reach := map[*ssa.BasicBlock]bool{}
+	var canReach func(b *ssa.BasicBlock, seen map[*ssa.BasicBlock]bool) bool
+	canReach = func(b *ssa.BasicBlock, seen map[*ssa.BasicBlock]bool) bool {
+		if seen[b] {
+			return false
+		}
+		seen[b] = true
+		for _, s := range b.Succs {
+			if s == header || canReach(s, seen) {
+				return true
+			}
+		}
+		return false
+	}
+	for _, b := range f.Blocks {
+		if header.Dominates(b) && (b == header || canReach(b, map[*ssa.BasicBlock]bool{})) {
+			reach[b] = true
+		}
+	}
+	isEmit := func(n string) bool {
+		return strings.Contains(n, "EventManager).Emit")
+	}
+	var hits []string
+	dummy := &Enc{r: &Root{g: v.g, v: v}}
+	for b := range reach {
+		for _, ins := range b.Instrs {
+			var cc *ssa.CallCommon
+			switch x := ins.(type) {
+			case *ssa.Call:
+				cc = &x.Call
+			case *ssa.Defer:
+				cc = &x.Call
+			}
+			if cc == nil {
+				continue
+			}
+			n := calleeNameStatic(cc)
+			if isEmit(n) {
+				hits = append(hits, fmt.Sprintf("%s emits an event (%s) inside a loop over a map: the order of the transaction's events follows the map iteration order", f.Name(), n))
+				continue
+			}
+			var callee *ssa.Function
+			if cc.IsInvoke() {
+				callee = v.resolveInvokeQuiet(dummy, cc)
+			} else {
+				callee = cc.StaticCallee()
+			}
+			if callee == nil {
+				continue
+			}
+			for _, g := range v.closureOf(callee) {
+				for _, gb := range g.Blocks {
+					for _, gi := range gb.Instrs {
+						var gc *ssa.CallCommon
+						switch y := gi.(type) {
+						case *ssa.Call:
+							gc = &y.Call
+						case *ssa.Defer:
+							gc = &y.Call
+						}
+						if gc != nil && isEmit(calleeNameStatic(gc)) {
+							hits = append(hits, fmt.Sprintf("%s calls %s inside a loop over a map, which emits an event in %s: the order of the transaction's events follows the map iteration order", f.Name(), callee.Name(), g.Name()))
+						}
+					}
+				}
+			}
+		}
+	}
+	sort.Strings(hits)
+	return dedupe(hits)
+}
+
 func (v *Verifier) mapRangeCovered(f *ssa.Function) bool {
 	ct := v.specs.Contracts[funcKey(f)]
 	if ct == nil || ct.Trusted {
